@@ -6015,8 +6015,10 @@ class State:
                     hand_type_indices = []
 
                     for k in self.hand_type_indices:
-                        for hand in self.get_up_hands(j, k):
-                            if hand is not None:
+                        hands = tuple(self.get_up_hands(j, k))
+
+                        for player_index in pot.player_indices:
+                            if hands[player_index] is not None:
                                 hand_type_indices.append(k)
 
                                 break
